@@ -13,7 +13,7 @@ LEVEL = "exploration"
 WORKERS = {"quick": 8, "thorough": 16}
 BUDGET = {"quick": 150, "thorough": 420}
 MIN_NONTRIVIAL = {"quick": 2000, "thorough": 12000}
-REQUIRED_HOOKS = ["evaluate:I", "evaluate:C", "resolve", "resolve-reuse", "macro-scope", "failing-body-scope", "declaration"]
+REQUIRED_HOOKS = ["evaluate:I", "evaluate:C", "resolve", "resolve-reuse", "macro-scope", "failing-body-scope", "macro-package", "declaration"]
 RULE = (
     "Configurations over the alphabet {a,b,c}: every assignment {unbound, scalar, nested map} to the nine dotted names L+prefix (L in {'', p, p.q}; prefix in "
     "{a, a.b, a.b.c}), x package in {none, p, p.q}, x every reference a, a.b, a.b.c (enumerated completely in the thorough tier, sampled in the quick tier). Every scalar "
@@ -224,6 +224,58 @@ def failing_body_scopes(acc, ctx):
                 )
 
 
+def macro_package_cases(acc, ctx):
+    """Package-qualified resolution INSIDE a macro body, the iteration variable spelled like a component of the package or like
+    nothing else in scope: the reference resolves as it does at the top level (the variable is one more root-level binding)."""
+    k = 0
+    for package in ("p", "p.q"):
+        for var in ("p", "q", "x"):
+            for ref in (("a",), ("a", "b")):
+                for ai, bound in enumerate(itertools.product("-s", repeat=4)):
+                    names = [("a",), ("p", "a"), ("p", "q", "a"), ("a", "b")]
+                    bindings = {n: make_value(n, "s", 1000 * (i + 1)) for i, (n, kk) in enumerate(zip(names, bound)) if kk == "s"}
+                    if not bindings:
+                        continue
+                    k += 1
+                    if not ctx.mine(k):
+                        continue
+                    src = f"[10, 20].map({var}, {'.'.join(ref)})"
+                    outs = []
+                    exp_elems = []
+                    undecided = False
+                    for elem in (10, 20):
+                        with_var = dict(bindings)
+                        with_var[(var,)] = ("int", elem)
+                        e, info = model_resolve(with_var, package, ref)
+                        if e[0] == "U":
+                            undecided = True
+                        exp_elems.append(e)
+                    if undecided:
+                        continue
+                    exp = ("E",) if any(e[0] == "E" for e in exp_elems) else ("V", ("list", tuple(e[1] for e in exp_elems)))
+                    benv = {".".join(n): MV.to_cel(v) for n, v in bindings.items()}
+                    acc.hook("macro-package")
+                    acc.nt(["macro-package", package, var, src, sorted(benv)])
+                    for r in "IC":
+                        out = core.api_eval(r, src, benv, package=package)
+                        acc.hook("evaluate:" + r)
+                        acc.evaluations += 1
+                        ok = agrees(out, exp)
+                        acc.cell("macro-package", r, "pkg%d" % (package.count(".") + 1), "var=" + ("package-component" if var in package.split(".") else "other"), exp[0], "ok" if ok else "differ")
+                        if not ok:
+                            # the same reference at the top level (no macro): when that is wrong too, check_config reports it (or it is the listed finding)
+                            top, _ = model_resolve(bindings, package, ref)
+                            top_out = core.api_eval(r, ".".join(ref), benv, package=package)
+                            if top[0] != "U" and not agrees(top_out, top):
+                                continue
+                            acc.violation(
+                                f"{r} resolve inside-macro-body variable={'package-component' if var in package.split('.') else 'unrelated'} pkg-depth={package.count('.') + 1} obs={diag.oclass(out).split('@')[0]} exp={'E' if exp[0] == 'E' else 'V:list'}",
+                                f"{'interpreted' if r == 'I' else 'compiled'}: {src!r} package={package!r} bindings={sorted(benv)} gave {core.jkey(out)[:80]}, expected {str(exp)[:80]} (the same reference at the top level resolves as expected)",
+                                {"kind": "macro", "src": src, "outer": {}, "runner": r, "expected": "E" if exp[0] == "E" else MV.enc(exp[1])},
+                            )
+    acc.exhaustive.append("2 packages x 3 variable spellings x 2 references x every subset of {a, p.a, p.q.a, a.b} bound, inside a macro body")
+
+
 # ---------------------------------------------------------------- declarations
 def declaration_cases(acc, ctx):
     ct = core.celpy().celtypes
@@ -387,6 +439,7 @@ def run(ctx):
     core.celpy()
     declaration_cases(acc, ctx)
     failing_body_scopes(acc, ctx)
+    macro_package_cases(acc, ctx)
     macro_cases(acc, ctx, ctx.scale(2500, 16000), keep=0.75)
     refs = [("a",), ("a", "b"), ("a", "b", "c")]
     packages = ["", "p", "p.q"]
